@@ -74,6 +74,7 @@ type recSink struct {
 
 func (o *recOrc) NewSink(_ string, n base.ClientNumber) base.BufferReceiverSink {
 	o.tr.Emit("DNewSink", "gen", o.gen, "num", int(n))
+	o.gate("d.newsink") // a downstream that takes its time to build a sink (caches, first pipelines)
 	return &recSink{o, int(n)}
 }
 func (o *recOrc) Shutdown() { o.tr.Emit("DShutdown", "gen", o.gen) }
